@@ -127,6 +127,16 @@ class Canon:
     def c(self, node, depth=0):
         if depth > 40:
             raise cxxast.Untranslatable("expression too deep")
+        # an explicit conversion floating -> integer is NOT transparent: it truncates
+        while node.get("kind") in ("ImplicitCastExpr", "ParenExpr", "ExprWithCleanups", "MaterializeTemporaryExpr", "CXXBindTemporaryExpr",
+                                   "CStyleCastExpr", "CXXStaticCastExpr", "CXXFunctionalCastExpr") and len(kids(node)) == 1:
+            inner = kids(node)[0]
+            if node.get("kind") in ("CStyleCastExpr", "CXXStaticCastExpr", "CXXFunctionalCastExpr"):
+                to = node.get("type", {}).get("qualType", "")
+                frm = cxxast.strip(inner).get("type", {}).get("qualType", "")
+                if frm in ("double", "float", "long double") and to not in ("double", "float", "long double", "void"):
+                    return "trunc_%s(%s)" % (to.replace(" ", "_"), self.c(inner, depth + 1))
+            node = inner
         node = cxxast.strip(node)
         k = node.get("kind")
         d = depth + 1
@@ -173,6 +183,8 @@ class Canon:
             return "%s%s" % (node.get("opcode"), self.c(kids(node)[0], d))
         if k == "IntegerLiteral":
             return str(node.get("value"))
+        if k == "FloatingLiteral":
+            return "%g" % float(node.get("value"))
         if k == "CXXBoolLiteralExpr":
             return "true" if node.get("value") else "false"
         if k == "CXXDeleteExpr":
@@ -470,6 +482,66 @@ def guard_facts():
                         "cancelInLoop, not found while calling: " + " ;; ".join(marks))
         return res
     attempt("TimerQueue_cancelInLoop", f_cancel)
+
+    # ---- Timer::restart / addTime arithmetic, the destructor sweep, the EventLoop wrappers
+    def canon_of(rel, qual):
+        fn = cxxast.function_decl(rel, qual)
+        return Canon(fn).stmts(cxxast.body(fn))
+
+    def f_arith():
+        res = []
+        st = canon_of("muduo/base/Timestamp.h", "muduo::addTime")
+        res += boolfact("Timestamp_addTime_truncates_product",
+                        st == ["return (timestamp.microSecondsSinceEpoch() + trunc_int64_t((seconds * kMicroSecondsPerSecond)))"],
+                        "addTime: " + " ;; ".join(st))
+        st = canon_of("muduo/net/Timer.cc", "Timer::restart")
+        res += boolfact("Timer_restart_adds_interval_to_now",
+                        st == ["if (repeat_) {(expiration_ = addTime(now, interval_))} else {(expiration_ = invalid())}"],
+                        "Timer::restart: " + " ;; ".join(st))
+        # Timer::Timer: repeat_(interval > 0.0), interval_(interval), expiration_(when), sequence_(s_numCreated_.incrementAndGet())
+        inits = {}
+        for d in cxxast.dump("muduo/net/Timer.h", "muduo::net::Timer::Timer"):
+            for n in cxxast.walk(d):
+                if n.get("kind") == "CXXConstructorDecl" and len([p for p in kids(n) if p.get("kind") == "ParmVarDecl"]) == 3:
+                    cn = Canon(n)
+                    for ci in kids(n):
+                        if ci.get("kind") == "CXXCtorInitializer" and kids(ci):
+                            nm = (ci.get("anyInit", {}) or {}).get("name", "?")
+                            try:
+                                inits[nm] = cn.c(kids(ci)[0])
+                            except Exception as e:  # noqa
+                                inits[nm] = "?" + clean(str(e))
+        ok = inits.get("repeat_") == "(interval > 0)" and inits.get("interval_") == "interval" and inits.get("expiration_") == "when" \
+            and inits.get("sequence_") == "s_numCreated_.incrementAndGet()"
+        res += boolfact("Timer_ctor_repeat_iff_interval_positive", ok, "Timer::Timer initialisers: " + " ;; ".join("%s(%s)" % kv for kv in sorted(inits.items())))
+        return res
+    attempt("Timer_arithmetic", f_arith)
+
+    def f_dtor():
+        st = canon_of(REL, "TimerQueue::~TimerQueue")
+        dels = [x for x in st if "delete" in x]
+        return boolfact("TimerQueue_dtor_deletes_exactly_timers", dels == ["for (elem : timers_) {delete elem.second}"],
+                        "~TimerQueue: " + " ;; ".join(st))
+    attempt("TimerQueue_dtor", f_dtor)
+
+    def f_wrappers():
+        EL = "muduo/net/EventLoop.cc"
+        res = []
+        want = {
+            "EventLoop::runAt": ("EventLoop_runAt_is_addTimer_interval_zero", ["return timerQueue_->addTimer(move(cb), time, 0)"]),
+            "EventLoop::runAfter": ("EventLoop_runAfter_is_runAt_addTime_now", ["return runAt(addTime(now(), delay), move(cb))"]),
+            "EventLoop::runEvery": ("EventLoop_runEvery_first_deadline_is_now_plus_interval",
+                                    ["return timerQueue_->addTimer(move(cb), addTime(now(), interval), interval)"]),
+            "EventLoop::cancel": ("EventLoop_cancel_forwards", ["return timerQueue_->cancel(timerId)"]),
+        }
+        for q in sorted(want):
+            name, exp = want[q]
+            st = canon_of(EL, q)
+            res += boolfact(name, st == exp, q + ": " + " ;; ".join(st))
+        st = canon_of(REL, "TimerQueue::cancel")
+        res += boolfact("TimerQueue_cancel_hands_off_cancelInLoop", st == ["loop_->runInLoop(bind(&cancelInLoop, this, timerId))"], "TimerQueue::cancel: " + " ;; ".join(st))
+        return res
+    attempt("EventLoop_wrappers", f_wrappers)
     return out, msgs
 
 
